@@ -1,7 +1,7 @@
 """C03 - phase equilibrium never creates, destroys or makes negative any material."""
 import random
 
-from harness import par, tlc
+from harness import core, par, tlc
 from harness.drivers import phaseeq as dp
 
 ASSUME = [
@@ -13,6 +13,8 @@ ASSUME = [
     'the solvers themselves are not modelled: the specification is the contract every outcome must satisfy (any conserving, non-negative redistribution '
     'over the phases the calculation works on)',
 ]
+
+RULE = ' Counting: evaluations = every executed call; distinct_nontrivial = distinct (operation, arguments, state before the call) among the calls that were judged, i.e. in contract, not state shaping and (where the property says so) returned normally.'
 
 
 def key_of(step, clause):
@@ -59,6 +61,7 @@ def run(ctx):
     defs, cfgc = dp.tla_constants()
     stats = dict(ok=0, raised=0, ops={})
     todo, n_traces = traces, 0
+    cases = []
     while todo:
         v = tlc.validate_traces('PhaseEq', defs, cfgc, todo, procs=16)
         n_traces += len(todo)
@@ -67,6 +70,9 @@ def run(ctx):
             x = v[t['id']]
             n_ok = x['l'] - 1 if x['code'] in ('rejected', 'ooc') else len(t['steps'])
             ooc = set(x['stepooc'])
+            for i, s in enumerate(t['steps'], 1):
+                pre_ = t['steps'][i - 2]['post'] if i > 1 else t['init']
+                cases.append((i <= n_ok and i not in ooc and s['op'] != 'shuffle', [s['op'], s['a'], pre_]))
             for i, s in enumerate(t['steps'][:n_ok], 1):
                 if s['op'] == 'shuffle':
                     continue
@@ -92,6 +98,8 @@ def run(ctx):
                     'integer tables (ledger, non-negativity, locked placement kept). Real solvers: random subsets of 7 chemicals, flows 1e-3..1e3, random initial '
                     'distribution over g / l / L / s (Stream and MultiStream), histories of 8 calls on the same stream: vle with TP, TV, PV, PH, PS, TH, TS, Tx, Ty, '
                     'Px, Py, lle (with / without top chemical and cache), sle (given / computed solubility), vlle; each logged table judged by TLC')
+    cov.update(core.case_stats(cases))
+    cov['rule'] += RULE
     return 'exploration', cov, ASSUME
 
 
